@@ -186,10 +186,12 @@ func CompareURI(a, b *url.URL) Class {
 		return Unknown
 	}
 	if a.Opaque != "" {
-		if strings.EqualFold(a.Scheme, b.Scheme) && a.Opaque == b.Opaque && a.RawQuery == b.RawQuery {
+		// net/http connects to URL.Host and sends Opaque?RawQuery as the request target
+		sameHost := strings.EqualFold(a.Host, b.Host)
+		if strings.EqualFold(a.Scheme, b.Scheme) && a.Opaque == b.Opaque && a.RawQuery == b.RawQuery && sameHost {
 			return Equivalent
 		}
-		if !strings.EqualFold(a.Scheme, b.Scheme) && a.Opaque == b.Opaque {
+		if a.Opaque == b.Opaque && (!strings.EqualFold(a.Scheme, b.Scheme) || !sameHost || a.RawQuery != b.RawQuery) {
 			return Distinct
 		}
 		return Unknown
